@@ -43,6 +43,16 @@ def parse_deductive(rep, funs=None):
                            'of their string-theory contracts (contracts/visitor.py)')
 
 
+def program_deductive(rep):
+    """compile_program / compile_function (C11): exactly one function per dictionary key, in dictionary order, named by the key, with
+    parameters arg1..argN"""
+    from ..pyvc.theory_clause import ProgramTheory
+    fw.deductive(rep, ['yp_generator.YPPrologCompiler.compile_function', 'yp_generator.YPPrologCompiler.compile_program'],
+                 ['generator_clause'], ['control.smt2'], theory=ProgramTheory)
+    rep.assumptions.append('the clause lists of the program dictionary are consumed lazily (itertools.chain.from_iterable over a generator '
+                           'expression) by the code generator: compile_function_body runs then, clause by clause in list order (not modelled; bounded)')
+
+
 def astvars_deductive(rep):
     """the `variables` properties of the AST classes against spec/astvars.smt2 (every variable of a clause is declared: C01, C06)"""
     from ..pyvc.theory_clause import AstVarsTheory
